@@ -35,9 +35,9 @@ theorem cfg_good : cfg.Good := by
     (≤ (n+1)² + 2 iterations for n listed PIDs). -/
 theorem C05_terminates (me : Caller) (recursive : Bool) (look0 : Look) (pm : PpidMap) (look : Look) :
     (children cfg me recursive look0 pm look).2 ≠ .diverged := by
-  cases hraise : (raiseIfPidReused look0 me).2 with
+  cases hraise : (raiseIfPidReused true look0 me).2 with
   | true =>
-    simp [children, cfg_good.childrenGuarded, hraise]
+    simp [children, cfg_good.childrenGuarded, cfg_good.goneRaises, hraise]
   | false =>
     cases recursive with
     | false => rw [children_flat_good cfg cfg_good me look0 pm look hraise]; simp
@@ -48,10 +48,10 @@ theorem C05_terminates (me : Caller) (recursive : Bool) (look0 : Look) (pm : Ppi
 /-- **C05_children_exact.** `children()` returns exactly the listed processes whose parent link
     is the caller, that still exist and did not start before it — each once, never the caller. -/
 theorem C05_children_exact (me : Caller) (look0 : Look) (pm : PpidMap) (look : Look)
-    (hu : UniquePids pm) (hr : me.reused = false) (hn : ¬ Recycled look0 me) :
+    (hu : UniquePids pm) (hr : me.reused = false) (hgone : me.gone = false) (ha : Alive look0 me) :
     ∃ l, (children cfg me false look0 pm look).2 = .ok l
       ∧ IsSetOf l (fun c => Child pm look me.ctime me.pid c ∧ c ≠ me.pid) := by
-  refine ⟨_, children_flat_good cfg cfg_good me look0 pm look (raise_false hr hn), ?_, ?_⟩
+  refine ⟨_, children_flat_good cfg cfg_good me look0 pm look (raise_false true hr hgone ha), ?_, ?_⟩
   · exact kids_nodup (uniquePids_filter hu _) _ _
   · intro c
     rw [mem_kids_iff, child_goodMap_iff]
@@ -59,18 +59,18 @@ theorem C05_children_exact (me : Caller) (look0 : Look) (pm : PpidMap) (look : L
 /-- **C05_children_rec_exact.** `children(recursive=True)` returns exactly the descendants of the
     caller — the inductive closure `Desc` of the child relation — each once, minus the caller. -/
 theorem C05_children_rec_exact (me : Caller) (look0 : Look) (pm : PpidMap) (look : Look)
-    (hu : UniquePids pm) (hr : me.reused = false) (hn : ¬ Recycled look0 me) :
+    (hu : UniquePids pm) (hr : me.reused = false) (hgone : me.gone = false) (ha : Alive look0 me) :
     ∃ l, (children cfg me true look0 pm look).2 = .ok l
       ∧ IsSetOf l (fun c => Desc pm look me.ctime me.pid c ∧ c ≠ me.pid) := by
-  obtain ⟨s, hs, hnd, hmem⟩ := children_rec_good cfg cfg_good me look0 pm look (raise_false hr hn)
+  obtain ⟨s, hs, hnd, hmem⟩ := children_rec_good cfg cfg_good me look0 pm look (raise_false true hr hgone ha)
   exact ⟨_, hs, flatMap_kids_isSetOf hu hnd hmem⟩
 
 /-- **C05_nodup.** No PID is returned twice, in either mode. -/
 theorem C05_nodup (me : Caller) (recursive : Bool) (look0 : Look) (pm : PpidMap) (look : Look)
     (hu : UniquePids pm) (l : List Nat) (h : (children cfg me recursive look0 pm look).2 = .ok l) :
     l.Nodup := by
-  cases hraise : (raiseIfPidReused look0 me).2 with
-  | true => simp [children, cfg_good.childrenGuarded, hraise] at h
+  cases hraise : (raiseIfPidReused true look0 me).2 with
+  | true => simp [children, cfg_good.childrenGuarded, cfg_good.goneRaises, hraise] at h
   | false =>
     cases recursive with
     | false =>
@@ -88,8 +88,8 @@ theorem children_mem (me : Caller) (recursive : Bool) (look0 : Look) (pm : PpidM
     (l : List Nat) (h : (children cfg me recursive look0 pm look).2 = .ok l) :
     ∀ c ∈ l, ∃ p, Child pm look me.ctime p c ∧ c ≠ me.pid := by
   intro c hc
-  cases hraise : (raiseIfPidReused look0 me).2 with
-  | true => simp [children, cfg_good.childrenGuarded, hraise] at h
+  cases hraise : (raiseIfPidReused true look0 me).2 with
+  | true => simp [children, cfg_good.childrenGuarded, cfg_good.goneRaises, hraise] at h
   | false =>
     cases recursive with
     | false =>
@@ -124,11 +124,11 @@ theorem C05_no_older (me : Caller) (recursive : Bool) (look0 : Look) (pm : PpidM
     times, PIDs unique) `children()` is exactly the set of rows whose ppid is the caller's PID
     and whose start time is not before the caller's — minus the caller. -/
 theorem C05_children_table (T : Table) (hT : T.pids.Nodup) (me : Caller) (hr : me.reused = false)
-    (hn : ¬ Recycled (lookOf T) me) :
+    (hgone : me.gone = false) (ha : Alive (lookOf T) me) :
     ∃ l, (children cfg me false (lookOf T) (ppidMap T) (lookOf T)).2 = .ok l
       ∧ IsSetOf l (fun c => ∃ r, ChildT T me.pid me.ctime r ∧ r.pid = c ∧ c ≠ me.pid) := by
   obtain ⟨l, hl, hnd, hmem⟩ := C05_children_exact me (lookOf T) (ppidMap T) (lookOf T)
-    (uniquePids_ppidMap hT) hr hn
+    (uniquePids_ppidMap hT) hr hgone ha
   refine ⟨l, hl, hnd, fun c => (hmem c).trans ?_⟩
   show (Child (ppidMap T) (lookOf T) me.ctime me.pid c ∧ c ≠ me.pid) ↔ _
   rw [child_table_iff hT]
@@ -138,23 +138,31 @@ theorem C05_children_table (T : Table) (hT : T.pids.Nodup) (me : Caller) (hr : m
 
 /-! ## The caller's identity -/
 
-/-- **C05_recycled_caller_NSP (children).** If the caller's PID now belongs to a process with
-    another start time, `children()` raises `NoSuchProcess(pid)` — provided the object has not
-    been found gone earlier (see `C05_recycled_after_gone_counterexample`). -/
-theorem C05_recycled_caller_NSP (me : Caller) (recursive : Bool) (look0 : Look) (pm : PpidMap)
-    (look : Look) (hg : me.gone = false ∨ me.reused = true) (h : Recycled look0 me) :
+/-- **C05_dead_caller_NSP.** If the incarnation the object was built for no longer owns its PID
+    (the process is gone, or the PID belongs to a process with another start time), or the object
+    already knows it (`_gone` / `_pid_reused`), `children()` raises `NoSuchProcess(pid)`. -/
+theorem C05_dead_caller_NSP (me : Caller) (recursive : Bool) (look0 : Look) (pm : PpidMap)
+    (look : Look) (h : ¬ Alive look0 me ∨ me.gone = true ∨ me.reused = true) :
     (children cfg me recursive look0 pm look).2 = .nsp me.pid := by
-  simp [children, cfg_good.childrenGuarded, raise_true hg h]
+  simp [children, cfg_good.childrenGuarded, cfg_good.goneRaises, raise_true_of_dead h]
 
-/-- **C05_recycled_caller_NSP (parent, parents).** Same for `parent()` and `parents()`, for a
-    caller that is not the root (lowest listed PID) of the table. -/
-theorem C05_recycled_caller_NSP_parent (ps : Ps) (T : Table) (me : Caller)
+/-- **C05_recycled_caller_NSP** — at full strength: whatever the object has seen before, if the
+    caller's PID now belongs to a process with another start time, `children()` raises
+    `NoSuchProcess(pid)`. -/
+theorem C05_recycled_caller_NSP (me : Caller) (recursive : Bool) (look0 : Look) (pm : PpidMap)
+    (look : Look) (h : Recycled look0 me) :
+    (children cfg me recursive look0 pm look).2 = .nsp me.pid :=
+  C05_dead_caller_NSP me recursive look0 pm look (Or.inl (not_alive_of_recycled h))
+
+/-- **C05_dead_caller_NSP (parent, parents).** Same for `parent()` and `parents()`, for a caller
+    that is not the lowest PID `parent()` stops at (`_LOWEST_PID` unset or current; the table is
+    not empty). A gone caller is not listed, hence never the root. -/
+theorem C05_dead_caller_NSP_parent (ps : Ps) (T : Table) (me : Caller) (hT : T ≠ [])
     (hfresh : ps.lowest = none ∨ ps.lowest = minPid? T) (hroot : isRoot T me.pid = false)
-    (hg : me.gone = false ∨ me.reused = true) (h : Recycled (lookOf T) me) :
+    (h : ¬ Alive (lookOf T) me ∨ me.gone = true ∨ me.reused = true) :
     (parent cfg ps T me).2.2 = .nsp me.pid ∧ (parents cfg ps T me).2 = .nsp me.pid := by
-  obtain ⟨s, hs, hne⟩ := h
-  obtain ⟨r, hfind, _⟩ := lookOf_some hs
-  obtain ⟨m, hm⟩ := minPid_some_of_mem (find_some hfind).2
+  obtain ⟨r, hrT⟩ := List.exists_mem_of_ne_nil T hT
+  obtain ⟨m, hm⟩ := minPid_some_of_mem hrT
   have hlow : lowestPid ps T = (⟨some m⟩, some m) := by
     unfold lowestPid
     rcases hfresh with h | h
@@ -165,30 +173,41 @@ theorem C05_recycled_caller_NSP_parent (ps : Ps) (T : Table) (me : Caller)
   have hbeq : (me.pid == m) = false := by
     simp [isRoot, hm] at hroot
     simpa using fun h => hroot h.symm
-  have hp : parent cfg ps T me = (⟨some m⟩, (raiseIfPidReused (lookOf T) me).1, .nsp me.pid) := by
+  have hp : parent cfg ps T me = (⟨some m⟩, (raiseIfPidReused true (lookOf T) me).1, .nsp me.pid) := by
     unfold parent
     simp only [cfg_good.lowestStop, if_true, hlow, hbeq, Bool.false_eq_true, if_false]
     unfold parentCore
-    simp [cfg_good.ppidGuarded, raise_true hg ⟨s, hs, hne⟩]
+    simp [cfg_good.ppidGuarded, cfg_good.goneRaises, raise_true_of_dead h]
   refine ⟨by rw [hp], ?_⟩
   unfold parents parentsFuel
   simp [parentsLoop, hp]
 
-/-- the statement without the "not seen gone before" hypothesis -/
-def C05_recycled_caller_NSP_Full : Prop :=
-  ∀ (me : Caller) (recursive : Bool) (look0 : Look) (pm : PpidMap) (look : Look),
-    Recycled look0 me → (children cfg me recursive look0 pm look).2 = .nsp me.pid
+/-- **C05_recycled_caller_NSP (parent, parents).** -/
+theorem C05_recycled_caller_NSP_parent (ps : Ps) (T : Table) (me : Caller)
+    (hfresh : ps.lowest = none ∨ ps.lowest = minPid? T) (hroot : isRoot T me.pid = false)
+    (h : Recycled (lookOf T) me) :
+    (parent cfg ps T me).2.2 = .nsp me.pid ∧ (parents cfg ps T me).2 = .nsp me.pid := by
+  have hT : T ≠ [] := by
+    obtain ⟨s, hs, _⟩ := h
+    obtain ⟨r, hfind, _⟩ := lookOf_some hs
+    exact List.ne_nil_of_mem (find_some hfind).2
+  exact C05_dead_caller_NSP_parent ps T me hT hfresh hroot (Or.inl (not_alive_of_recycled h))
 
-/-- The full statement is **false** of the code: an object that `is_running()` has once seen
-    gone (`_gone = True`) never re-checks its identity, so when PID 5 is recycled afterwards
-    `children()` answers for the new process 5 (`[6]`) instead of raising NoSuchProcess. -/
-theorem C05_recycled_after_gone_counterexample : ¬ C05_recycled_caller_NSP_Full := by
-  intro h
-  have := h ⟨5, 10, true, false⟩ false (lookOf [⟨1, 0, 1⟩, ⟨5, 1, 15⟩, ⟨6, 5, 20⟩])
-    (ppidMap [⟨1, 0, 1⟩, ⟨5, 1, 15⟩, ⟨6, 5, 20⟩]) (lookOf [⟨1, 0, 1⟩, ⟨5, 1, 15⟩, ⟨6, 5, 20⟩])
-    ⟨15, by decide, by decide⟩
-  revert this
-  decide
+/-- psutil before the `_gone` test in `_raise_if_pid_reused()` (fact `goneRaises = false`) -/
+def preGoneCfg : Cfg := ⟨.le, .le, .le, true, true, true, true, true, true, false⟩
+
+/-- Why the fact `goneRaises` matters: without the `_gone` test an object that `is_running()` has
+    once seen gone (`_gone = True`) never re-checks its identity, so when PID 5 is recycled
+    afterwards `children()` answers for the new process 5 (`[6]`) instead of raising
+    NoSuchProcess — the full-strength statement is **false** for that configuration; with the
+    test the same call raises. (Former known finding C05-gone-then-recycled, fixed in /repo.) -/
+theorem C05_recycled_after_gone_counterexample :
+    Recycled (lookOf [⟨1, 0, 1⟩, ⟨5, 1, 15⟩, ⟨6, 5, 20⟩]) ⟨5, 10, true, false⟩
+    ∧ (children preGoneCfg ⟨5, 10, true, false⟩ false (lookOf [⟨1, 0, 1⟩, ⟨5, 1, 15⟩, ⟨6, 5, 20⟩])
+        (ppidMap [⟨1, 0, 1⟩, ⟨5, 1, 15⟩, ⟨6, 5, 20⟩]) (lookOf [⟨1, 0, 1⟩, ⟨5, 1, 15⟩, ⟨6, 5, 20⟩])).2 = .ok [6]
+    ∧ (children cfg ⟨5, 10, true, false⟩ false (lookOf [⟨1, 0, 1⟩, ⟨5, 1, 15⟩, ⟨6, 5, 20⟩])
+        (ppidMap [⟨1, 0, 1⟩, ⟨5, 1, 15⟩, ⟨6, 5, 20⟩]) (lookOf [⟨1, 0, 1⟩, ⟨5, 1, 15⟩, ⟨6, 5, 20⟩])).2 = .nsp 5 := by
+  refine ⟨⟨15, by decide, by decide⟩, by decide, by decide⟩
 
 /-- …and that state is what the model's `is_running()` produces from a fresh object when the
     process is gone (`mid` table without PID 5). -/
@@ -203,29 +222,29 @@ example : (isRunning (lookOf [⟨1, 0, 1⟩, ⟨6, 5, 20⟩]) ⟨5, 10, false, f
     current.) -/
 theorem C05_parent_spec (ps : Ps) (T : Table) (me : Caller)
     (hfresh : ps.lowest = none ∨ ps.lowest = minPid? T) (hr : me.reused = false)
-    (hl : lookOf T me.pid = some me.ctime) :
+    (hgone : me.gone = false) (hl : lookOf T me.pid = some me.ctime) :
     (parent cfg ps T me).2.2 = .ok (parentOf T me.pid me.ctime) :=
-  (parent_good cfg cfg_good ps T me hfresh hr hl).1
+  (parent_good cfg cfg_good ps T me hfresh hr hgone hl).1
 
 /-- **C05_parents_chain / C05_parents_terminates.** On ANY table (cyclic parent links, equal
     start times, self-loops) `parents()` returns — within `|T| + 2` iterations — the chain of
     `parent()`: up to the root, or up to the first process already on the chain. -/
 theorem C05_parents_chain (ps : Ps) (T : Table) (me : Caller)
     (hfresh : ps.lowest = none ∨ ps.lowest = minPid? T) (hr : me.reused = false)
-    (hl : lookOf T me.pid = some me.ctime) :
+    (hgone : me.gone = false) (hl : lookOf T me.pid = some me.ctime) :
     ∃ l, (parents cfg ps T me).2 = .ok l ∧ Chain T [me.pid] me.pid me.ctime l := by
   have hlt : unseenCnt T.pids [me.pid] < parentsFuel T := by
     have := unseenCnt_le_length T.pids [me.pid]
     have hlen : T.pids.length = T.length := by simp [Table.pids]
     unfold parentsFuel
     omega
-  obtain ⟨l, h1, h2⟩ := parentsLoop_good cfg cfg_good T (parentsFuel T) ps [me.pid] me [] hfresh hr hl hlt
+  obtain ⟨l, h1, h2⟩ := parentsLoop_good cfg cfg_good T (parentsFuel T) ps [me.pid] me [] hfresh hr hgone hl hlt
   exact ⟨l, by simpa [parents] using h1, h2⟩
 
 theorem C05_parents_terminates (ps : Ps) (T : Table) (me : Caller)
     (hfresh : ps.lowest = none ∨ ps.lowest = minPid? T) (hr : me.reused = false)
-    (hl : lookOf T me.pid = some me.ctime) : (parents cfg ps T me).2 ≠ .diverged := by
-  obtain ⟨l, h, _⟩ := C05_parents_chain ps T me hfresh hr hl
+    (hgone : me.gone = false) (hl : lookOf T me.pid = some me.ctime) : (parents cfg ps T me).2 ≠ .diverged := by
+  obtain ⟨l, h, _⟩ := C05_parents_chain ps T me hfresh hr hgone hl
   rw [h]; simp
 
 /-- **C05_parents_to_root.** When the parent links that pass the create-time test are acyclic
@@ -234,11 +253,11 @@ theorem C05_parents_terminates (ps : Ps) (T : Table) (me : Caller)
     `parent()` up to the root: nothing is cut. -/
 theorem C05_parents_to_root (ps : Ps) (T : Table) (me : Caller)
     (hfresh : ps.lowest = none ∨ ps.lowest = minPid? T) (hr : me.reused = false)
-    (hl : lookOf T me.pid = some me.ctime) (rk : Nat → Nat)
+    (hgone : me.gone = false) (hl : lookOf T me.pid = some me.ctime) (rk : Nat → Nat)
     (hrk : ∀ r ∈ T, ∀ q ∈ T, q.pid = r.ppid → isRoot T r.pid = false → q.start ≤ r.start →
       rk q.pid < rk r.pid) :
     ∃ l, (parents cfg ps T me).2 = .ok l ∧ ChainToRoot T me.pid me.ctime l := by
-  obtain ⟨l, h1, h2⟩ := C05_parents_chain ps T me hfresh hr hl
+  obtain ⟨l, h1, h2⟩ := C05_parents_chain ps T me hfresh hr hgone hl
   refine ⟨l, h1, chain_toRoot rk hrk hl ?_ h2⟩
   intro s hs
   rw [List.mem_singleton] at hs
@@ -282,7 +301,7 @@ theorem C05_stat_roundtrip (pid : Nat) (comm state : Bytes) (ppid : Nat) (pre : 
 /-! ## Why each fact of `cfg_good` matters (counterexamples for the other configurations) -/
 
 /-- the configuration of the repaired code, written out -/
-def fixedCfg : Cfg := ⟨.le, .le, .le, true, true, true, true, true, true⟩
+def fixedCfg : Cfg := ⟨.le, .le, .le, true, true, true, true, true, true, true⟩
 
 theorem fixedCfg_good : fixedCfg.Good := by constructor <;> rfl
 
@@ -366,13 +385,8 @@ def docTree : Table :=
   [⟨1, 0, 0⟩, ⟨10, 1, 5⟩, ⟨11, 10, 6⟩, ⟨12, 11, 7⟩, ⟨13, 12, 8⟩, ⟨14, 10, 6⟩, ⟨15, 10, 9⟩]
 
 example : docTree.pids.Nodup ∧ UniquePids (ppidMap docTree)
-    ∧ ¬ Recycled (lookOf docTree) ⟨10, 5, false, false⟩ := by
-  refine ⟨by decide, by unfold UniquePids; decide, ?_⟩
-  rintro ⟨s, hs, hne⟩
-  have : s = 5 := by
-    have h : lookOf docTree 10 = some 5 := by decide
-    rw [h] at hs; exact (Option.some.inj hs).symm
-  exact hne this
+    ∧ Alive (lookOf docTree) ⟨10, 5, false, false⟩ := by
+  refine ⟨by decide, by unfold UniquePids; decide, by unfold Alive; decide⟩
 
 example : (children cfg ⟨10, 5, false, false⟩ false (lookOf docTree) (ppidMap docTree) (lookOf docTree)).2
       = .ok [11, 14, 15]
